@@ -86,9 +86,9 @@ def replay(case, ctx):
     variants = case.get('schemes') or [(0,), ((h0 % (N_SCHEMES - 1)) + 1,)]
     variants = [tuple(v) for v in variants]
     if 'schemes' not in case and (ctx.get('tier') == 'thorough' or h0 % 2 == 0):
-        # the same circuit under the same names with other capacitances / inductances (frequency unit 10 or 1000: C/wu, L/wu) on a time axis
+        # the same circuit under the same names with other capacitances / inductances (frequency unit 10 ... 1e9: C/wu, L/wu) on a time axis
         # compressed by wu: every sample keeps its value - a simulation must not remember the previous circuit of that name
-        variants.append((0, [1, 3][(h0 >> 1) % 2]))
+        variants.append((0, [1, 3, 9, 7][(h0 >> 1) % 4]))         # down to nF / pF capacitances and nH inductances on a ns time axis
     for var in variants:
         scheme = var[0]
         wexp = var[1] if len(var) > 1 else 0
